@@ -3,3 +3,4 @@ import GwcsProofs.C07
 import GwcsProofs.C08
 import GwcsProofs.C14
 import GwcsProofs.C03
+import GwcsProofs.C13
